@@ -124,6 +124,7 @@ def build(model, tif=None, rec_start=None):
         markers.append(pos)
         layout['fields'].append((pos, 12, 'tif'))
 
+    marks_after = set(model.get('marks_after') or [])
     for rec in model['records']:
         pay = payload_bytes(rec)
         assert len(pay) >= 1
@@ -177,6 +178,8 @@ def build(model, tif=None, rec_start=None):
             off += c
         rl['end'] = len(out)
         layout['records'].append(rl)
+        if tif != 'none' and (len(layout['records']) - 1) in marks_after:
+            put_marker(1, 0)          # a single tape mark: end of one logical file on a multi-file tape image
     if tif != 'none':
         put_marker(1, 0)
         put_marker(1, 0)
